@@ -1,12 +1,17 @@
-"""Symbolic byte-set semantics of pure predicates over one byte variable.
+"""Symbolic byte-set semantics of pure predicates over byte variables.
 
-Given a boolean expression tree in which a single variable `c` (a char / uint8_t
-parameter or local) occurs, compute the set {b in 0..255 | expr(b)} by *set
+Given a boolean expression tree in which byte-valued variables occur (a char /
+uint8_t parameter or local, or locals defined from it through tables, e.g.
+`cls = k_host_class[c]`), compute the set {b in 0..255 | expr(b)} by *set
 algebra on the syntax*: comparisons against constants become intervals, && / ||
 / ! become intersection / union / complement, table lookups `T[uint8_t(c)]`
 become the table's support, calls to other first-party byte predicates are
 expanded through their own defining expression.  No code is executed; an
-expression outside this grammar raises Unsupported (-> analysis broken)."""
+expression outside this grammar raises Unsupported (-> analysis broken).
+
+`env` maps a local/param id to {byte -> integer value of that variable when the
+scanned byte is `byte`}.
+"""
 from . import ex as X
 from .facts import AnalysisBroken
 from . import tables as T
@@ -19,61 +24,58 @@ class Unsupported(AnalysisBroken):
 ALL = frozenset(range(256))
 
 
-def _is_var(e, var):
-    """Is e (modulo casts) the byte variable?  `var` is a predicate on ref nodes."""
-    e = X.strip(e)
-    return isinstance(e, dict) and e.get("k") == "ref" and var(e)
-
-
-def _signed(e):
-    """Does the (uncast) variable have signed char type?  chars compare as signed."""
-    return False
+def byte_identity(ty):
+    """Value of a variable of type `ty` holding byte b (char is signed on x86-64)."""
+    t = ty.replace("const ", "").strip()
+    if t in ("char", "signed char", "int8_t"):
+        return {b: (b if b < 128 else b - 256) for b in range(256)}
+    return {b: b for b in range(256)}
 
 
 class ByteSem:
-    def __init__(self, facts, signed_char=True):
+    def __init__(self, facts):
         self.facts = facts
-        self.signed_char = signed_char
         self._pred_cache = {}
 
-    # value-of-byte as the C++ expression sees it (char is signed on x86-64)
-    def _vals(self, e, var):
-        """Return dict b -> integer value of expression e when var == byte b, for
-        affine/bitwise expressions of the variable; None if e does not mention var."""
-        e0 = e
-        if isinstance(e, dict) and e.get("k") == "cast":
-            inner = self._vals(e["e"], var)
+    def mentions(self, e, env):
+        for n in X.walk(e):
+            if n.get("k") == "ref" and n.get("id") in env and n.get("kind") in ("local", "param"):
+                return True
+        return False
+
+    def vals(self, e, env):
+        """{b -> integer value of e} or None if e does not mention an env variable."""
+        if not isinstance(e, dict):
+            raise Unsupported("bad expression")
+        k = e.get("k")
+        if k == "cast":
+            inner = self.vals(e["e"], env)
             if inner is None:
                 return None
             ty = e.get("ty", "")
             return {b: _convert(v, ty) for b, v in inner.items()}
-        e = e0
-        if not isinstance(e, dict):
-            raise Unsupported("bad expression")
-        k = e.get("k")
         if k == "ref":
-            if var(e):
-                ty = e.get("ty", "")
-                if ty.replace("const ", "") in ("char", "signed char") and self.signed_char:
-                    return {b: (b if b < 128 else b - 256) for b in range(256)}
-                return {b: b for b in range(256)}
+            if e.get("kind") in ("local", "param") and e.get("id") in env:
+                return dict(env[e["id"]])
             return None
         if k == "lit":
             return None
         if k == "un" and e["op"] in ("-", "~", "+"):
-            v = self._vals(e["e"], var)
+            v = self.vals(e["e"], env)
             if v is None:
                 return None
             f = {"-": lambda x: -x, "~": lambda x: ~x, "+": lambda x: x}[e["op"]]
-            return {b: f(x) for b, x in v.items()}
+            return {b: (None if x is None else f(x)) for b, x in v.items()}
         if k == "bin" and e["op"] in ("+", "-", "|", "&", "^", ">>", "<<", "*"):
-            l, r = self._vals(e["l"], var), self._vals(e["r"], var)
-            cl, cr = X.const_val(e["l"]), X.const_val(e["r"])
+            l, r = self.vals(e["l"], env), self.vals(e["r"], env)
             if l is None and r is None:
                 return None
+            cl, cr = X.const_val(e["l"]), X.const_val(e["r"])
             op = e["op"]
 
             def ap(a, b):
+                if a is None or b is None:
+                    return None
                 return {"+": a + b, "-": a - b, "|": a | b, "&": a & b, "^": a ^ b,
                         ">>": a >> b, "<<": a << b, "*": a * b}[op]
             if l is not None and r is None:
@@ -86,24 +88,28 @@ class ByteSem:
                 return {b: ap(cl, x) for b, x in r.items()}
             return {b: ap(l[b], r[b]) for b in range(256)}
         if k == "cond":
-            c = self.set_of(e["c"], var)
-            t, f = self._vals(e["t"], var), self._vals(e["f"], var)
+            if not self.mentions(e, env):
+                return None
+            c = self.set_of(e["c"], env)
+            t, f = self.vals(e["t"], env), self.vals(e["f"], env)
             ct, cf = X.const_val(e["t"]), X.const_val(e["f"])
-            if t is None and ct is None or f is None and cf is None:
+            if (t is None and ct is None) or (f is None and cf is None):
                 raise Unsupported("conditional value " + X.show(e))
             return {b: ((t[b] if t is not None else ct) if b in c else (f[b] if f is not None else cf))
                     for b in range(256)}
         if k == "index" or (k == "call" and e.get("op") == "[]"):
-            tv = self._table_values(e, var)
+            tv = self._table_values(e, env)
             if tv is not None:
                 return tv
-        # mentions var in an unsupported way?
-        for n in X.walk(e):
-            if n.get("k") == "ref" and var(n):
-                raise Unsupported("unsupported use of byte variable in " + X.show(e))
+        if k in ("bin", "un") and self.mentions(e, env):
+            # boolean-valued sub-expression used as an integer
+            s = self.set_of(e, env)
+            return {b: int(b in s) for b in range(256)}
+        if self.mentions(e, env):
+            raise Unsupported("unsupported use of a byte variable in " + X.show(e))
         return None
 
-    def _table_values(self, e, var):
+    def _table_values(self, e, env):
         if e.get("k") == "index":
             base, idx = e["base"], e["idx"]
         else:
@@ -111,65 +117,63 @@ class ByteSem:
         base = X.strip(base)
         if not (isinstance(base, dict) and base.get("k") == "ref" and base.get("kind") in ("global", "static_local")):
             return None
-        iv = self._vals(idx, var)
+        iv = self.vals(idx, env)
         if iv is None:
             return None
         t = self.facts.table(base["qname"])
-        vals = T.elems(t)
+        vs = T.elems(t)
         out = {}
         for b in range(256):
             i = iv[b]
-            if not (0 <= i < len(vals)):
-                out[b] = None   # out of range for this byte; only an error if selected
+            if i is None or not (0 <= i < len(vs)):
+                out[b] = None   # out of range for this byte; only matters if selected
             else:
-                v = vals[i]
-                out[b] = int(v) if isinstance(v, (int, bool)) else v
+                v = vs[i]
+                out[b] = int(v) if isinstance(v, (int, bool)) else None
         return out
 
-    def set_of(self, e, var):
-        """{b | e is true when var == b}."""
-        e = X.strip(e) if isinstance(e, dict) and e.get("k") != "cast" else e
-        if isinstance(e, dict) and e.get("k") == "cast" and e.get("ty") in ("bool",):
-            return self.set_of(e["e"], var)
+    def set_of(self, e, env):
+        """{b | e is true}."""
         if not isinstance(e, dict):
             raise Unsupported("bad expression")
         k = e.get("k")
+        if k == "cast":
+            return self.set_of(e["e"], env) if e.get("ty") == "bool" else self._truthy(e, env)
         if k == "lit":
             return ALL if e.get("v") else frozenset()
         if k == "un" and e["op"] == "!":
-            return ALL - self.set_of(e["e"], var)
+            return ALL - self.set_of(e["e"], env)
         if k == "bin" and e["op"] == "&&":
-            return self.set_of(e["l"], var) & self.set_of(e["r"], var)
+            return self.set_of(e["l"], env) & self.set_of(e["r"], env)
         if k == "bin" and e["op"] == "||":
-            return self.set_of(e["l"], var) | self.set_of(e["r"], var)
+            return self.set_of(e["l"], env) | self.set_of(e["r"], env)
         if k == "bin" and e["op"] in ("==", "!=", "<", "<=", ">", ">="):
-            l, r = self._vals(e["l"], var), self._vals(e["r"], var)
+            l, r = self.vals(e["l"], env), self.vals(e["r"], env)
             cl, cr = X.const_val(e["l"]), X.const_val(e["r"])
-            op = e["op"]
             cmpf = {"==": lambda a, b: a == b, "!=": lambda a, b: a != b, "<": lambda a, b: a < b,
-                    "<=": lambda a, b: a <= b, ">": lambda a, b: a > b, ">=": lambda a, b: a >= b}[op]
+                    "<=": lambda a, b: a <= b, ">": lambda a, b: a > b, ">=": lambda a, b: a >= b}[e["op"]]
             if l is not None and cr is not None:
                 return frozenset(b for b in range(256) if l[b] is not None and cmpf(l[b], cr))
             if r is not None and cl is not None:
                 return frozenset(b for b in range(256) if r[b] is not None and cmpf(cl, r[b]))
             if l is not None and r is not None:
-                return frozenset(b for b in range(256) if cmpf(l[b], r[b]))
-            raise Unsupported("comparison not over the byte variable: " + X.show(e))
+                return frozenset(b for b in range(256) if l[b] is not None and r[b] is not None and cmpf(l[b], r[b]))
+            raise Unsupported("comparison not over a byte variable: " + X.show(e))
         if k == "cond":
-            c = self.set_of(e["c"], var)
-            return (c & self.set_of(e["t"], var)) | ((ALL - c) & self.set_of(e["f"], var))
+            c = self.set_of(e["c"], env)
+            return (c & self.set_of(e["t"], env)) | ((ALL - c) & self.set_of(e["f"], env))
         if k == "call" and e.get("fp") and not e.get("op"):
-            # first-party predicate applied to the byte: expand its definition
             args = e.get("args", [])
             if len(args) == 1:
-                av = self._vals(args[0], var)
+                av = self.vals(args[0], env)
                 if av is not None:
                     ps = self.pred_set(e["callee"])
-                    # argument is the byte itself (possibly cast): map through values
-                    return frozenset(b for b in range(256) if (av[b] & 0xFF) in ps)
+                    return frozenset(b for b in range(256) if av[b] is not None and (av[b] & 0xFF) in ps)
             raise Unsupported("call " + X.show(e))
-        # integer used as truth value: table lookups, masks
-        v = self._vals(e, var)
+        return self._truthy(e, env)
+
+    def _truthy(self, e, env):
+        v = self.vals(e, env)
         if v is not None:
             return frozenset(b for b in range(256) if v[b])
         raise Unsupported("not a byte predicate: " + X.show(e))
@@ -198,7 +202,7 @@ class ByteSem:
                 others += 1   # real control flow, not short-circuit evaluation of the return expression
         if len(rets) != 1 or others:
             raise Unsupported("predicate %s is not a single return expression" % key)
-        r = self.set_of(rets[0], lambda n: n.get("id") == pid and n.get("kind") == "param")
+        r = self.set_of(rets[0], {pid: byte_identity(f["params"][0]["ty"])})
         self._pred_cache[key] = r
         return r
 
@@ -218,6 +222,179 @@ def _convert(v, ty):
         return v & 0xFFFFFFFF
     if ty in ("size_t", "uint64_t", "unsigned long", "std::size_t"):
         return v & 0xFFFFFFFFFFFFFFFF
-    if ty in ("int", "int32_t", "long", "int64_t", "bool"):
-        return v
     return v
+
+
+class ByteLoop:
+    """Byte-domain abstract interpretation of one scanning-loop body.
+
+    Abstract state: the scanned byte c ranges over a set S of byte values, locals
+    defined from c (through tables / arithmetic) are functions of c, everything
+    else is unknown.  Starting right after the declaration `c = input[i]`, the CFG
+    is followed; a branch whose condition is a function of c splits S, any other
+    branch is followed both ways.  Outcomes per byte (a set, since unknown
+    branches are followed both ways):
+      ('next',)            the loop goes on to the next byte (byte accepted)
+      ('return', text)     the function returns `text`
+      ('exit', label)      control leaves the loop (break / goto), label = text of
+                           the first statement(s) met outside
+    """
+
+    def __init__(self, facts, f, sem=None):
+        self.fx = facts
+        self.f = f
+        self.sem = sem or ByteSem(facts)
+        self.blocks = {b["id"]: b for b in f["blocks"]}
+
+    def find_byte_decls(self, name):
+        out = []
+        for b in self.f["blocks"]:
+            for i, s in enumerate(b["stmts"]):
+                if s["k"] == "decl":
+                    for v in s["vars"]:
+                        if v["name"] == name and v.get("init") is not None:
+                            out.append((b["id"], i, v))
+        return out
+
+    def _scc_of(self, bid):
+        fwd = self._reach(bid, lambda b: [s["to"] for s in self.blocks[b]["succ"] if not s.get("pruned")])
+        preds = {}
+        for b in self.f["blocks"]:
+            for s in b["succ"]:
+                if not s.get("pruned"):
+                    preds.setdefault(s["to"], []).append(b["id"])
+        bwd = self._reach(bid, lambda b: preds.get(b, []))
+        return (fwd & bwd) | {bid}
+
+    @staticmethod
+    def _reach(start, nxt):
+        seen = set()
+        st = list(nxt(start))
+        while st:
+            x = st.pop()
+            if x in seen:
+                continue
+            seen.add(x)
+            st.extend(nxt(x))
+        return seen
+
+    def classify(self, bid, idx, var):
+        """var: the decl record of the byte variable (in block bid at statement idx)."""
+        env = {var["id"]: byte_identity(var["ty"])}
+        loop = self._scc_of(bid)
+        if len(loop) < 2 and not any(s["to"] == bid for s in self.blocks[bid]["succ"]):
+            raise Unsupported("byte declaration %s is not inside a loop" % var["name"])
+        outcome = {}
+        work = [(bid, idx + 1, ALL)]
+        seen = set()
+        steps = 0
+        while work:
+            steps += 1
+            if steps > 5000:
+                raise Unsupported("byte loop too complex")
+            b, i, S = work.pop()
+            if not S:
+                continue
+            blk = self.blocks[b]
+            if b not in loop:
+                # outside the loop: keep splitting on byte-dependent branches of empty blocks,
+                # stop at the first statement (return -> outcome, else labelled exit)
+                t = blk["term"]
+                c = t.get("econd") if t.get("econd") is not None else t.get("cond")
+                succ = [s for s in blk["succ"] if not s.get("pruned")]
+                if not blk["stmts"] and c is not None and len(succ) == 2 and self.sem.mentions(c, env):
+                    ts = self.sem.set_of(c, env)
+                    for s in succ:
+                        part = (S & ts) if s["when"] == "true" else (S - ts)
+                        if part:
+                            work.append((s["to"], 0, part))
+                    continue
+                if blk["stmts"] and blk["stmts"][0]["k"] == "return":
+                    s0 = blk["stmts"][0]
+                    txt = X.show(s0.get("e")) if s0.get("e") is not None else "void"
+                    for x in S:
+                        self._set(outcome, x, ("return", txt))
+                    continue
+                label = self._label(blk)
+                for x in S:
+                    self._set(outcome, x, ("exit", label))
+                continue
+            if i == 0 and blk["term"].get("kind") in ("ForStmt", "WhileStmt", "DoStmt", "CXXForRangeStmt") \
+                    and not blk["stmts"]:
+                # back at the loop header: the byte was consumed, next iteration
+                for x in S:
+                    self._set(outcome, x, ("next",))
+                continue
+            key = (b, i, S)
+            if key in seen:
+                continue
+            seen.add(key)
+            done = False
+            stmts = blk["stmts"]
+            j = i
+            while j < len(stmts):
+                s = stmts[j]
+                if s["k"] == "return":
+                    txt = X.show(s.get("e")) if s.get("e") is not None else "void"
+                    for x in S:
+                        self._set(outcome, x, ("return", txt))
+                    done = True
+                    break
+                if s["k"] == "decl":
+                    if b == bid and j == idx:
+                        for x in S:
+                            self._set(outcome, x, ("next",))
+                        done = True
+                        break
+                    for v in s["vars"]:
+                        if v.get("init") is not None and self.sem.mentions(v["init"], env):
+                            try:
+                                env[v["id"]] = self.sem.vals(v["init"], env)
+                            except Unsupported:
+                                try:
+                                    st = self.sem.set_of(v["init"], env)
+                                    env[v["id"]] = {x: int(x in st) for x in range(256)}
+                                except Unsupported:
+                                    pass
+                j += 1
+            if done:
+                continue
+            succ = [s for s in blk["succ"] if not s.get("pruned")]
+            if not succ:
+                for x in S:
+                    self._set(outcome, x, ("exit", "end"))
+                continue
+            t = blk["term"]
+            c = t.get("econd") if t.get("econd") is not None else t.get("cond")
+            if c is not None and len(succ) == 2 and t.get("kind") != "SwitchStmt" and self.sem.mentions(c, env):
+                ts = self.sem.set_of(c, env)
+                for s in succ:
+                    part = (S & ts) if s["when"] == "true" else (S - ts)
+                    if part:
+                        work.append((s["to"], 0, part))
+            else:
+                for s in succ:
+                    work.append((s["to"], 0, S))
+        missing = ALL - set(outcome)
+        if missing:
+            raise Unsupported("byte loop: no outcome for bytes " + T.fmtset(missing))
+        return outcome
+
+    def _set(self, outcome, x, o):
+        prev = outcome.get(x)
+        outcome[x] = frozenset([o]) if prev is None else prev | {o}
+
+    def _label(self, blk):
+        txt = []
+        for s in blk["stmts"][:2]:
+            txt.append(s.get("text", "")[:60].replace("\n", " "))
+        if blk.get("label", {}).get("label"):
+            txt.insert(0, blk["label"]["label"] + ":")
+        if not txt and blk["term"].get("cond_text"):
+            txt.append("if " + blk["term"]["cond_text"][:60])
+        return " ; ".join(txt) or ("B%d" % blk["id"])
+
+
+def bytes_any(outcome, pred):
+    """Bytes for which some possible outcome satisfies pred."""
+    return frozenset(b for b, os_ in outcome.items() if any(pred(o) for o in os_))
